@@ -355,6 +355,12 @@ def check_sourcemap(src, out, toks, strict=True):
             cands.append(dash_to_camel(rest))
             if not any(c.startswith(name) for c in cands) and not name.startswith("_$"):
                 problems.append(("map-src-not-at-spelling", t))
+            elif o + len(name) < len(out) and out[o + len(name)] in "= \t\n/>" and (o == 0 or out[o - 1] in " \t\n<"):
+                # a tag or attribute NAME in the output: the source construct it maps to must be that name, not a longer one
+                # beginning with it (`wx:for` mapped to the `wx:for-item` attribute)
+                ends = "= \t\n\r/>"
+                if not any(c.startswith(name) and (len(c) == len(name) or c[len(name)] in ends) for c in cands) and not name.startswith("_$"):
+                    problems.append(("map-src-at-another-name", t))
     return problems
 
 
